@@ -97,6 +97,16 @@ theorem portCpu_int (port cpu : Nat) :
     Int.lor ((Int.land (port : Int) 7) <<< ((5 : Int)).toNat) (Int.land (cpu : Int) 31) = ((portCpu port cpu : Nat) : Int) := by
   simp (disch := decide) only [portCpu, lit_natCast, land_natCast, lor_natCast, shl_natCast, Int.toNat_natCast]
 
+theorem portCpu_def' (port cpu : Nat) : (cpu &&& 31) ||| ((port &&& 7) <<< 5) = portCpu port cpu := by
+  rw [Nat.lor_comm]; rfl
+
+theorem portCpu_def (port cpu : Nat) : ((port &&& 7) <<< 5) ||| (cpu &&& 31) = portCpu port cpu := rfl
+
+/-- the port/cpu byte, however its two halves are ordered in the source, as the cast of the model's `portCpu` -/
+macro "port_cpu" : tactic => `(tactic|
+  simp (disch := decide) only [lit_natCast, land_natCast, lor_natCast, shl_natCast, Int.toNat_natCast, portCpu_def,
+    portCpu_def'])
+
 theorem portCpu_lt (port cpu : Nat) : portCpu port cpu < 256 := by
   unfold portCpu
   have h1 : port &&& 7 ≤ 7 := Nat.and_le_right
@@ -159,7 +169,8 @@ theorem gen_sdp_bytestring (p : SDP) :
   unfold PyFun.SDPPacket_bytestring PyFun.SDPPacket_packed_data encodeSDP
   have hf : (if p.reply = true then (135 : Int) else 7) = (((if p.reply then FLAG_REPLY else FLAG_NO_REPLY : Nat)) : Int) := by
     cases p.reply <;> rfl
-  rw [hf, portCpu_int, portCpu_int]
+  rw [hf]
+  port_cpu
   have := header_pack p p.data
   revert this
   generalize PyFun.pyStructPack false _ _ = r
@@ -232,7 +243,9 @@ theorem gen_scp_bytestring (p : SCP) :
   have hf : (if p.hdr.reply = true then (135 : Int) else 7)
       = (((if p.hdr.reply then FLAG_REPLY else FLAG_NO_REPLY : Nat)) : Int) := by
     cases p.hdr.reply <;> rfl
-  rw [hf, portCpu_int, portCpu_int, gen_scp_packed_data]
+  rw [hf]
+  port_cpu
+  rw [gen_scp_packed_data]
   simp only [bind, Except.bind]
   cases hd : packedData p with
   | error e =>
